@@ -273,7 +273,10 @@ func cliCase(prop string) func(c *Case, cov *Cov) []*Violation {
 		if v, ok := os.LookupEnv("CLISIM_TRACEBACK_FORCE"); ok {
 			tb = v
 		}
-		cmd.Env = append(os.Environ(), "CLISIM_TRACEBACK="+tb, "CLISIM_MODE=case", "CLISIM_PROP="+prop, "CLISIM_CASE="+f.Name(), "CLISIM_OUT="+of)
+		if os.Getenv("VERIF_CLISIM_CLOCKED") != "" && (c.Run/2)%2 == 1 {
+			cmd.Env = append(cmd.Env, "VERIF_MAPORDER=reverse@0")
+		}
+		cmd.Env = append(append(os.Environ(), cmd.Env...), "CLISIM_TRACEBACK="+tb, "CLISIM_MODE=case", "CLISIM_PROP="+prop, "CLISIM_CASE="+f.Name(), "CLISIM_OUT="+of)
 		if ob, err := cmd.CombinedOutput(); err != nil {
 			panic(fmt.Sprintf("clisim driver: %v: %s", err, clipS(string(ob), 800)))
 		}
@@ -323,7 +326,12 @@ func postCLI(prop string) func(seed uint64, tier string, cov *Cov) ([]*Violation
 				if w%2 == 1 {
 					tb = "" // GOTRACEBACK unset: the "To see all goroutines" hint is printed for single-goroutine dumps
 				}
-				cmd.Env = append(os.Environ(), "CLISIM_TRACEBACK="+tb, "CLISIM_MODE=batch", "CLISIM_PROP="+prop, fmt.Sprintf("CLISIM_SEED=%d", seed), fmt.Sprintf("CLISIM_OFFSET=%d", w), fmt.Sprintf("CLISIM_STRIDE=%d", workers), fmt.Sprintf("CLISIM_RUNS=%d", runs), "CLISIM_OUT="+of.Name(), "GOMAXPROCS=2")
+				if os.Getenv("VERIF_CLISIM_CLOCKED") != "" && (w/2)%2 == 1 {
+					// this worker's runs under the simulator's clock over packages
+					// stack and internal: it jumps a second whenever the code looks
+					cmd.Env = append(cmd.Env, "VERIF_MAPORDER=reverse@0")
+				}
+				cmd.Env = append(append(os.Environ(), cmd.Env...), "CLISIM_TRACEBACK="+tb, "CLISIM_MODE=batch", "CLISIM_PROP="+prop, fmt.Sprintf("CLISIM_SEED=%d", seed), fmt.Sprintf("CLISIM_OFFSET=%d", w), fmt.Sprintf("CLISIM_STRIDE=%d", workers), fmt.Sprintf("CLISIM_RUNS=%d", runs), "CLISIM_OUT="+of.Name(), "GOMAXPROCS=2")
 				if ob, err := cmd.CombinedOutput(); err != nil {
 					ch <- res{nil, fmt.Errorf("clisim driver: %v: %s", err, clipS(string(ob), 1500))}
 					return
@@ -360,7 +368,7 @@ func postCLI(prop string) func(seed uint64, tier string, cov *Cov) ([]*Violation
 			vs = append(vs, o.Violations...)
 			total += o.Runs
 		}
-		return vs, map[string]any{"clisim_stage": map[string]any{"what": "the real internal.process() loop under SimReader/SimWriter (driver placed into package internal with go test -overlay)", "runs": total, "evaluations": evals}}, nil
+		return vs, map[string]any{"clisim_stage": map[string]any{"what": "the real internal.process() loop under SimReader/SimWriter (driver placed into package internal with go test -overlay)", "clock": map[bool]string{true: "workers 2, 3, 6, 7 of 8 under the simulator's clock over packages stack and internal (time.Now/time.Since rewritten at build time; jumps a second per reading)", false: "real clock"}[os.Getenv("VERIF_CLISIM_CLOCKED") != ""], "runs": total, "evaluations": evals}}, nil
 	}
 }
 
